@@ -1,5 +1,5 @@
 (* C20/Model.v — executable state-machine model of autode.opt.optimisers.base.OptimiserHistory
-   (base.py:916-1214), written by following the code line by line.  Definitions only.
+   (base.py:916-1218), written by following the code line by line.  Definitions only.
 
    The file system is part of the state: `fs : option archive` is the trajectory .zip (None = the
    file does not exist).  An archive is the LIST of its members in write order: python's zipfile
@@ -9,8 +9,10 @@
    `item` = one coordinate set together with its energy, gradient and Hessian (what pickle stores),
    `par`  = the optimiser-parameter dict.  Both are abstract: nothing below inspects them.
 
-   The model follows /repo after commit 24aa35f (open refuses once coordinates have been dropped from
-   memory, a second close is a no-op, load reads nothing from an archive without coordinates). *)
+   The model follows /repo after commits 24aa35f (open refuses once coordinates have been dropped from
+   memory, a second close is a no-op, load reads nothing from an archive without coordinates), 18d0995
+   (add counts an entry only once it is stored) and 975c2b4 (save_opt_params does not recreate a
+   removed file). *)
 From Coq Require Import List ZArith Bool Arith Lia.
 Import ListNotations.
 Set Implicit Arguments.
@@ -37,7 +39,7 @@ Section Model.
 Variable item : Type.
 Variable par : Type.
 
-(* zip members: 'ade_opt_trj' (base.py:1012), 'opt_params' (1083), 'coords_<i>' (1132,1151) *)
+(* zip members: 'ade_opt_trj' (base.py:1012), 'opt_params' (1086), 'coords_<i>' (1135,1155) *)
 Inductive member := MHeader | MParams (p : par) | MCoords (i : nat) (x : item).
 Definition archive := list member.
 
@@ -92,28 +94,28 @@ Definition mem_neg (m : list item) (k : Z) : res item :=
   if (j <? 0)%Z then Err EIndex
   else match nth_error m (Z.to_nat j) with Some x => Ok x | None => Err EIndex end.
 
-(* the members close() appends: coords_idx, coords_(idx+1), ... (base.py:1148-1153) *)
+(* the members close() appends: coords_idx, coords_(idx+1), ... (base.py:1152-1157) *)
 Fixpoint cmem (idx : nat) (l : list item) : archive :=
   match l with [] => [] | x :: r => MCoords idx x :: cmem (S idx) r end.
 
-(* ---------------------------------------------------------------- __getitem__ (base.py:1158-1200) *)
+(* ---------------------------------------------------------------- __getitem__ (base.py:1162-1204) *)
 Definition getitem (w : world) (z : Z) : res (option item) :=
   let (fs, h) := w in
   let L := Z.of_nat (len h) in
-  let i := if (z <? 0)%Z then (z + L)%Z else z in                         (* 1183-1184 *)
-  if ((i <? 0) || (L <=? i))%Z then Err EIndex                            (* 1185-1186 *)
-  else if (L - Z.of_nat (maxlen h) <=? i)%Z then                          (* 1189 *)
-    match mem_neg (mem h) (i - L) with Ok x => Ok (Some x) | Err e => Err e end   (* 1190 *)
-  else if negb (fname h) then Ok None                                     (* 1193-1194: lost *)
+  let i := if (z <? 0)%Z then (z + L)%Z else z in                         (* 1187-1188 *)
+  if ((i <? 0) || (L <=? i))%Z then Err EIndex                            (* 1189-1190 *)
+  else if (L - Z.of_nat (maxlen h) <=? i)%Z then                          (* 1193 *)
+    match mem_neg (mem h) (i - L) with Ok x => Ok (Some x) | Err e => Err e end   (* 1194 *)
+  else if negb (fname h) then Ok None                                     (* 1197-1198: lost *)
   else match fs with
        | None => Err EFileNotFound                                        (* ZipFile(...,"r") *)
-       | Some a => match get_coords (Z.to_nat i) a with                   (* 1196-1198 *)
+       | Some a => match get_coords (Z.to_nat i) a with                   (* 1200-1202 *)
                    | Some x => Ok (Some x)
                    | None => Err EKey
                    end
        end.
 
-(* __iter__ / __reversed__ (base.py:1202-1214): generators over self[i]; an exception ends them *)
+(* __iter__ / __reversed__ (base.py:1206-1218): generators over self[i]; an exception ends them *)
 Fixpoint collect (w : world) (idxs : list nat) : list (option item) * option err :=
   match idxs with
   | [] => ([], None)
@@ -172,36 +174,36 @@ Definition step (w : world) (o : op) : world * out :=
       if fname h then (w, OErr ERuntime)                                  (* 989-990 *)
       else if length (mem h) <? len h then (w, OErr ERuntime)             (* 992-996: entries already dropped *)
       else ((Some [MHeader], mkHist (maxlen h) (mem h) (len h) true (closed h)), ODone)  (* 1003-1013: an existing file is removed, then "w" *)
-  | Add x =>                                                              (* base.py:1109-1135 *)
-      if closed h then (w, OErr ERuntime)                                 (* 1121-1122 *)
+  | Add x =>                                                              (* base.py:1112-1139 *)
+      if closed h then (w, OErr ERuntime)                                 (* 1124-1125 *)
       else
-        let l1 := S (len h) in                                            (* 1124 (before any failure) *)
+        let l1 := S (len h) in                                            (* counted only once stored *)
         let m1 := push (maxlen h) (mem h) x in
-        if (length (mem h) <? maxlen h) || negb (fname h) then            (* 1126-1128 *)
+        if (length (mem h) <? maxlen h) || negb (fname h) then            (* 1128-1131 *)
           ((fs, mkHist (maxlen h) m1 l1 (fname h) (closed h)), ODone)
         else match fs with
-             | None => ((fs, mkHist (maxlen h) (mem h) l1 (fname h) (closed h)), OErr EFileNotFound)   (* 1130 *)
+             | None => (w, OErr EFileNotFound)                           (* _n_stored: nothing counted yet *)
              | Some a =>
                  match mem h with
-                 | [] => ((fs, mkHist (maxlen h) (mem h) l1 (fname h) (closed h)), OErr EIndex)   (* maxlen=0 only *)
-                 | x0 :: _ =>                                             (* 1131-1134 *)
+                 | [] => (w, OErr EIndex)   (* maxlen=0: OUTSIDE the model - the real code has by then opened an empty member coords_<n> *)
+                 | x0 :: _ =>                                             (* 1133-1138 *)
                      ((Some (a ++ [MCoords (n_coords a) x0]), mkHist (maxlen h) m1 l1 (fname h) (closed h)), ODone)
                  end
              end
-  | SaveParams p =>                                                       (* base.py:1063-1086 *)
+  | SaveParams p =>                                                       (* base.py:1063-1089 *)
       if negb (fname h) then (w, OErr ERuntime)                           (* 1072-1073 *)
       else match fs with
-           | None => ((Some [MParams p], h), ODone)                       (* mode "a" creates the file *)
-           | Some a => if has_params a then (w, OErr EFileExists)         (* 1078-1082 *)
-                       else ((Some (a ++ [MParams p]), h), ODone)         (* 1083-1084 *)
+           | None => (w, OErr EFileNotFound)                              (* 1075-1076: the file was removed *)
+           | Some a => if has_params a then (w, OErr EFileExists)         (* 1081-1085 *)
+                       else ((Some (a ++ [MParams p]), h), ODone)         (* 1086-1087 *)
            end
-  | GetParams =>                                                          (* base.py:1088-1107 *)
+  | GetParams =>                                                          (* base.py:1091-1110 *)
       if negb (fname h) then (w, OErr ERuntime)
       else match fs with
            | None => (w, OErr EFileNotFound)
            | Some a => match get_params a with
                        | Some p => (w, OParams p)
-                       | None => (w, OErr EFileNotFound)                  (* 1102-1103 *)
+                       | None => (w, OErr EFileNotFound)                  (* 1105-1106 *)
                        end
            end
   | GetItem z => (w, of_res (getitem w z))
@@ -212,13 +214,13 @@ Definition step (w : world) (o : op) : world * out :=
       (w, match mem_neg (mem h) (-1) with Ok x => OItem (Some x) | Err e => OErr e end)
   | Penultimate =>                                                        (* 947-961 *)
       (w, match mem_neg (mem h) (-2) with Ok x => OItem (Some x) | Err e => OErr e end)
-  | Close =>                                                              (* base.py:1137-1156 *)
-      if negb (fname h) then (w, OErr ERuntime)                           (* 1142-1143 *)
-      else if closed h then (w, ODone)                                    (* 1145-1146: already flushed *)
+  | Close =>                                                              (* base.py:1141-1160 *)
+      if negb (fname h) then (w, OErr ERuntime)                           (* 1146-1147 *)
+      else if closed h then (w, ODone)                                    (* 1149-1150: already flushed *)
       else match fs with
-           | None => (w, OErr EFileNotFound)                              (* 1148: _n_stored *)
-           | Some a => ((Some (a ++ cmem (n_coords a) (mem h)),           (* 1149-1153: ONE ZipFile session *)
-                         mkHist (maxlen h) (mem h) (len h) (fname h) true), ODone)   (* 1155 *)
+           | None => (w, OErr EFileNotFound)                              (* 1152: _n_stored *)
+           | Some a => ((Some (a ++ cmem (n_coords a) (mem h)),           (* 1153-1157: ONE ZipFile session *)
+                         mkHist (maxlen h) (mem h) (len h) (fname h) true), ODone)   (* 1159 *)
            end
   | CleanUp =>                                                            (* base.py:1058-1061 *)
       if negb (fname h) then (w, OErr EType)
@@ -239,6 +241,16 @@ Fixpoint run (w : world) (ops : list op) : world * list out :=
   | o :: r => let (w1, x) := step w o in
               let (w2, xs) := run w1 r in (w2, x :: xs)
   end.
+(* the adds that were accepted = returned without raising, read off the outputs of a run *)
+Fixpoint accepted (ops : list op) (outs : list out) : nat :=
+  match ops, outs with
+  | Add _ :: r, ODone :: s => S (accepted r s)
+  | _ :: r, _ :: s => accepted r s
+  | _, _ => 0
+  end.
+Definition no_load (ops : list op) : bool :=
+  forallb (fun o => match o with Load => false | _ => true end) ops.
+
 Definition exec (fs0 : option archive) (ml : nat) (ops : list op) : world := fst (run (init fs0 ml) ops).
 
 (* ---------------------------------------------------------------- the abstract specification *)
